@@ -2,7 +2,7 @@
    O-tie: every bounds check the real code generator emits for the whole family (GenChecks.v, regenerated
    from vyper/codegen/core.py on every run) is syntactically one of the parametric templates of Checks.v. *)
 From Coq Require Import ZArith Bool List String Lia.
-From Verif Require Import Base.Word256 Base.PyInt C03.LIR C03.VSL C04.AllocModel C04.AllocProofs C04.LegacyProofs C04.GenLegacy C04.LegacyTie C04.Frames C04.Concretize C04.MemLiveness C04.Fmp C04.Checks C04.GenChecks.
+From Verif Require Import Base.Word256 Base.PyInt C03.LIR C03.VSL C04.AllocModel C04.AllocProofs C04.LegacyProofs C04.GenLegacy C04.LegacyTie C04.Frames C04.Concretize C04.MemLiveness C04.Fmp C04.GenVenomAlloc C04.VenomAllocSeq C04.Checks C04.GenChecks.
 Import ListNotations.
 Open Scope Z_scope.
 
@@ -185,6 +185,22 @@ Theorem no_overlap_if_interfere_sound : forall globals l, no_overlap_if_interfer
 Proof. exact no_overlap_checker_sound. Qed.
 Print Assumptions no_overlap_if_interfere_sound.
 
+(* venom MemoryAllocator as an object (round 4).  T-tie: the first-fit loop regenerated from the source of
+   MemoryAllocator.allocate (allocate_scan) is the model's scan; for EVERY sequence of start_fn / reset / reserve /
+   reserve_all / add_allocated / allocate / add_global / set_position calls, each interval returned by allocate starts
+   at or above FN_START = 0 and shares no byte with any interval reserved at that moment *)
+Theorem venom_allocate_loop_is_source : forall reserved size,
+  allocate_scan (isort reserved) GEN_FN_START size = Ok (venom_allocate reserved size).
+Proof. exact venom_allocate_is_generated. Qed.
+Print Assumptions venom_allocate_loop_is_source.
+
+Theorem venom_alloc_seq_disjoint : forall ops st' evs,
+  vmrun vm0 ops = Some (st', evs) ->
+  forall id ptr size resv, In (id, ptr, size, resv) evs ->
+    0 <= ptr /\ forall r, In r resv -> avoids ptr size r.
+Proof. intros ops st' evs R. eapply venom_alloc_seq_disjoint_l; eauto. Qed.
+Print Assumptions venom_alloc_seq_disjoint.
+
 (* fmp_lowering: the size rounding emitted for `dalloca` is ceil32 (observed template = vceil32), and bump
    allocation with LIFO rewinds keeps the live dynamic regions stacked: pairwise disjoint, above the static frame
    (eom) and below the free-memory pointer; every new region starts at the old pointer, i.e. above all live ones *)
@@ -256,6 +272,12 @@ Proof.
   cbv zeta. split; [vm_compute; reflexivity|]. split; [vm_compute; reflexivity|].
   eapply la_read; [left; reflexivity|left; reflexivity].
 Qed.
+
+Example venom_seq_nonvacuous :
+  vm_trace [MAllocate 0%nat 64; MReserve 0%nat; MAllocate 1%nat 32; MAddGlobal 1%nat; MReset; MAllocate 2%nat 96;
+            MReserveAll; MAllocate 3%nat 32] = [0; 64; 96; 192] /\
+  vm_trace [MAllocate 0%nat 64; MAllocate 0%nat 64] = [-1].
+Proof. split; vm_compute; reflexivity. Qed.
 
 Example fmp_nonvacuous :
   vrun [("p0"%string, 33)] vceil32 = Val 64 /\ vrun [("p0"%string, 0)] vceil32 = Val 0 /\
